@@ -54,8 +54,8 @@ def decodeOp : PyVal → Option (POp String)
     pure (.add i j)
   | .list [.str "find", r, .str k, .bool ci] => do pure (.on (← nat? r) (.find k ci))
   | .list [.str "col", r, .int i] => do pure (.on (← nat? r) (.column (.idx i)))
-  -- `isinstance(True, int)`: a bool is an index
-  | .list [.str "col", r, .bool b] => do pure (.on (← nat? r) (.column (.idx (if b then 1 else 0))))
+  -- a bool stays a bool: whether it is an index (`isinstance(True, int)`) is the model's business
+  | .list [.str "col", r, .bool b] => do pure (.on (← nat? r) (.column (.flag b)))
   | .list [.str "col", r, .str k] => do pure (.on (← nat? r) (.column (.name k)))
   | .list [.str "pop", r, .str k] => do pure (.on (← nat? r) (.pop k))
   | .list [.str "allnames", r] => do pure (.on (← nat? r) .allNames)
